@@ -83,6 +83,9 @@ TraceNext == TSend \/ TRecv \/ TEof \/ TQuiet \/ TIdleBegin \/ TIdleEnd \/ TShut
 TraceSpec == TraceInit /\ [][TraceNext]_<<vars, tvars>>
 
 Done == l = Len(Evs) + 1
-Report == Done => PrintT(<<"ACC", Conns[c].id>>)
+\* second, hook-free trace source: the server's own monitor events for this peer must be the sequence the
+\* model state implies (only judged when the client saw the server's close, i.e. the list is complete)
+MonOk == Conns[c].mon_complete => (~open /\ Conns[c].mon = MonExpected)
+Report == (Done /\ MonOk) => PrintT(<<"ACC", Conns[c].id>>)
 \* all model invariants are evaluated in every state of every explanation
 =============================================================================
